@@ -6,7 +6,7 @@ import json, os, subprocess, sys
 
 ROOT = "/verif"
 def sh(cmd, cwd=None):
-    p = subprocess.run(cmd, shell=True, cwd=cwd, capture_output=True, text=True)
+    p = subprocess.run(cmd, shell=True, cwd=cwd, capture_output=True, text=True, errors="replace")
     return p.returncode, p.stdout + p.stderr
 
 def claimed():
